@@ -37,6 +37,16 @@ The two passes over the command line (`doit <loader options> <sub-command> <opti
               Encoding: outcome (0 executed | 3 run returned 3 | 98 an exception left run), command name, params at
               setup, params after DOIT_CONFIG, positional.  Key numbers: o<k> -> k, base options dep_file 91, backend 92,
               codec_cls 93, check_file_uptodate 94.
+  part seq    SEQUENCES on ONE DoitMain object (one config object shared by every command it builds): 2-4 steps, each a
+              DoitMain.run of a command line (different commands and the same command) or the mere construction of a
+              command + its parser (what `doit help <cmd>` / tabcompletion do); the commands share options (options of
+              the loader, base option dep_file / check_file_uptodate, one option definition in the cmd_options of
+              several commands) and GLOBAL and the section of every command give them different values  <->  model
+              `seq_scenario` (= main_seq init_pure: every step applied to the ORIGINAL configuration).
+              Encoding: per step -1, then a run as in part main | a build: 0 + defaults of the parser's options, 3, 98.
+              Oracles (no model): `config-mutated` (the config object equals a deep copy taken before the sequence, after
+              every step), `seq-step-not-independent` (a step gives what the same step gives as the first one on a fresh
+              DoitMain), and the precedence rule below on every run step (shape prefix `seq:`).
   part pe     Command.parse_execute twice on ONE recording command object built with opt_vals  <->  `pe_scenario`.
   part vars   DoitMain.process_args alone  <->  `process_args`.
   part cli    `python -m doit` in a sub-process with dodo files a.py b.py x.py g.py l.py dodo.py defining different
@@ -1063,6 +1073,28 @@ def build_main(c, rec):
     return Main(task_loader=Loader(), config_filenames=(), extra_config=config)
 
 
+def one_main_run(main, rec, argv):
+    """main.run(argv) -> (encoded observation, what the recording loader / command saw)"""
+    rec.clear()
+    buf = io.StringIO()
+    with contextlib.redirect_stdout(buf), contextlib.redirect_stderr(buf):
+        try:
+            rc = main.run(list(argv))
+        except BaseException:  # noqa
+            rc = 98
+    if rc == 0 and rec.get('executed'):
+        obs = [0] + zstr(rec['cmd']) + zparams_n(*rec['setup']) + zparams_n(*rec['final']) + [len(rec['pos'])]
+        for a in rec['pos']:
+            obs += zstr(a)
+    elif rc == 0 and not rec and argv and argv[0] in ('--version', '--help'):
+        obs = [0] + zstr(argv[0]) + [0, 0, 0]
+    elif rc in (3, 98):
+        obs = [rc]
+    else:
+        obs = [97, rc if isinstance(rc, int) else -1]
+    return obs, dict(rec, rc=rc)
+
+
 def run_main_impl(c, times=1):
     """DoitMain.run on the case -> list of (encoded observation, rec) for `times` runs of ONE DoitMain object"""
     from doit import doit_cmd
@@ -1078,24 +1110,7 @@ def run_main_impl(c, times=1):
             except Exception:  # noqa
                 return [([98], {})] * times
             for _ in range(times):
-                rec.clear()
-                buf = io.StringIO()
-                with contextlib.redirect_stdout(buf), contextlib.redirect_stderr(buf):
-                    try:
-                        rc = main.run(list(c['argv']))
-                    except BaseException:  # noqa
-                        rc = 98
-                if rc == 0 and rec.get('executed'):
-                    obs = [0] + zstr(rec['cmd']) + zparams_n(*rec['setup']) + zparams_n(*rec['final']) + [len(rec['pos'])]
-                    for a in rec['pos']:
-                        obs += zstr(a)
-                elif rc == 0 and not rec and c['argv'] and c['argv'][0] in ('--version', '--help'):
-                    obs = [0] + zstr(c['argv'][0]) + [0, 0, 0]
-                elif rc in (3, 98):
-                    obs = [rc]
-                else:
-                    obs = [97, rc if isinstance(rc, int) else -1]
-                res.append((obs, dict(rec, rc=rc)))
+                res.append(one_main_run(main, rec, c['argv']))
     finally:
         Globals.dep_manager, CmdAction.STRING_FORMAT, doit_cmd._CMDLINE_VARS = saved
     return res
@@ -1258,7 +1273,7 @@ def gen_main_case(rng, base, inject=None):
     return c
 
 
-def gen_main_wild(rng, base):
+def gen_main_wild(rng, base, nargv=1):
     pool = gen_pool(rng, rng.randint(1, 6), wild=True)
     nl = rng.randint(0, min(3, len(pool)))
     lspec, rest = pool[:nl], pool[nl:]
@@ -1283,6 +1298,7 @@ def gen_main_wild(rng, base):
     argv = [tok() for _ in range(rng.randint(0, 7))]
     if argv and argv[0] in ('--version', '--help'):
         argv = argv[1:]
+    more = [[tok() for _ in range(rng.randint(0, 5))] for _ in range(nargv - 1)]        # part seq: nargv > 1
     tval = lambda: rng.choice([None, True, False, 3, ['q'], [], sval(), sval()])
     config = []
     for sec in ['GLOBAL'] + CMD_NAMES:
@@ -1291,7 +1307,10 @@ def gen_main_wild(rng, base):
     rng.shuffle(config)
     dodo = list(dict((rng.randint(1, 7), tval()) for _ in range(rng.choice([0, 0, 1, 2]))).items())
     env = [(k, sval()) for k in range(11, 17) if rng.random() < 0.2]
-    return dict(part='main', kind='main-wild', base=base, lspec=lspec, cmds=cmds, config=config, env=env, dodo=dodo, argv=argv)
+    c = dict(part='main', kind='main-wild', base=base, lspec=lspec, cmds=cmds, config=config, env=env, dodo=dodo, argv=argv)
+    if nargv > 1:
+        c['argvs'] = [argv] + more
+    return c
 
 
 # ------------------------------------------------------------------ the precedence rule, judged on the implementation alone
@@ -1359,8 +1378,9 @@ def first_diff(exp, got):
     return None
 
 
-def judge_main(c, runs, out):
-    slim = {k: c[k] for k in ('part', 'kind', 'lspec', 'cmds', 'config', 'env', 'dodo', 'argv')}
+def judge_main(c, runs, out, slim=None):
+    if slim is None:
+        slim = {k: c[k] for k in ('part', 'kind', 'lspec', 'cmds', 'config', 'env', 'dodo', 'argv')}
     obs, rec = runs[0]
     if len(runs) > 1 and runs[1][0] != obs:
         out.violations.append(dict(what='DoitMain.run on the same command line twice (one DoitMain object) gave different results',
@@ -1469,6 +1489,227 @@ def part_main(ctx, out):
                 out.samples.append(dict(argv=c['argv'], loader_options=[(o['ty'], o['short'], o['long']) for o in c['lspec']], env=c['env'],
                                         config=c['config'], doit_config=c['dodo'], observed=runs[0][0]))
     out.extra['main_special_runs'] = special
+    return cases
+
+
+# ------------------------------------------------------------------ sequences on ONE DoitMain / one config object
+SEQ_BASE_VALUES = {91: ['g.json', 'run.json', 'ca.json', 'cb.json', 'x.db', ''], 94: ['md5', 'timestamp']}
+
+
+def plain_config(main):
+    """the config object of a DoitMain as plain data"""
+    return copy.deepcopy({sec: dict(vals) for sec, vals in main.config.items()})
+
+
+def gen_seq_step(rng, lspec, cmds, name, mode):
+    """one DoitMain.run: a well-formed command line for the command `name` (mode explicit: the name is written)"""
+    ex = next(cm for cm in cmds if cm['name'] == name)
+    ex_opts = (lspec + ex['spec']) if ex['task'] else list(ex['spec'])
+    usable = [o for o in ex_opts if o['short'] or o['long']]
+    pre, pre_toks, post, post_toks = [], [], [], []
+    pre_cands = [o for o in lspec if (o['short'] or o['long']) and o['ty'] != 'list']
+    if pre_cands and rng.random() < 0.25:
+        a, toks = gen_assign(rng, rng.choice(pre_cands), False)
+        pre.append(a)
+        pre_toks += toks
+    if mode == 'explicit' and usable:
+        for _ in range(rng.choice([0, 0, 0, 1, 2])):
+            a, toks = gen_assign(rng, rng.choice(usable), True)
+            post.append(a)
+            post_toks += toks
+    pos = [rng.choice(['t1', 't2', 'x y']) for _ in range(rng.choice([0, 0, 1]))]
+    argv = pre_toks + ([name] if mode == 'explicit' else []) + post_toks + pos
+    return dict(kind='run', argv=argv, pre=pre, post=post, pos=pos, exec=name, mode=mode)
+
+
+def gen_seq_case(rng, base):
+    """well-formed: the commands SHARE options, GLOBAL and the sections of the commands disagree about them"""
+    pool = gen_pool(rng, rng.randint(3, 7))
+    nl = rng.randint(1, 2)
+    lspec, rest = pool[:nl], pool[nl:]                     # options of the loader: shared by the task commands run, ca
+    cmds = [dict(name=nm, task=(nm != 'cb'), spec=[]) for nm in CMD_NAMES]
+    for o in rest:                                         # one option definition in the cmd_options of 1..3 commands
+        for cm in rng.sample(cmds, rng.choice([1, 2, 2, 3])):
+            cm['spec'].append(o)
+    for cm in cmds:
+        cm['spec'].sort(key=lambda o: o['n'])
+    byn = {o['n']: o for o in base if o['n'] in SEQ_BASE_VALUES}
+    byn.update((o['n'], o) for o in pool)
+    config, env, dodo = {}, [], []
+    for n_, o in sorted(byn.items()):
+        used = []
+        for sec in ['GLOBAL'] + CMD_NAMES:                 # also sections of commands that do not have the option
+            if rng.random() < (0.55 if sec == 'GLOBAL' else 0.4):
+                for _ in range(4):                         # the sections should disagree
+                    s_ = rng.choice(SEQ_BASE_VALUES[n_]) if n_ in SEQ_BASE_VALUES else valid_string(rng, o, False)
+                    v = s_ if rng.random() < 0.8 else ref_convert(o['ty'], s_)
+                    if ref_convert(o['ty'], s_) not in used:
+                        break
+                used.append(ref_convert(o['ty'], s_))
+                config.setdefault(sec, []).append((n_, v))
+        if o['env'] and rng.random() < 0.25:
+            env.append((o['env'], valid_string(rng, o, False)))
+        if n_ not in SEQ_BASE_VALUES and rng.random() < 0.2:
+            dodo.append((n_, ref_convert(o['ty'], valid_string(rng, o, False))))
+    nsteps = rng.choice([2, 2, 3, 3, 4])
+    shape = rng.choice(['different', 'different', 'different', 'same', 'free'])
+    names = [rng.choice(CMD_NAMES) for _ in range(nsteps)]
+    if shape == 'same':
+        names = [names[0]] * nsteps
+    elif shape == 'different':
+        while len(set(names)) < 2:
+            names[rng.randrange(nsteps)] = rng.choice(CMD_NAMES)
+    steps = []
+    for i, nm in enumerate(names):
+        if rng.random() < 0.15 and i < nsteps - 1:        # only built: what help / tabcompletion do
+            steps.append(dict(kind='build', name=nm))
+        else:
+            steps.append(gen_seq_step(rng, lspec, cmds, nm, 'implicit' if (nm == 'run' and rng.random() < 0.25) else 'explicit'))
+    return dict(part='seq', kind='seq-wf:' + shape, base=base, lspec=lspec, cmds=cmds, config=sorted(config.items(), key=lambda kv: rng.random()),
+                env=env, dodo=dodo, steps=steps)
+
+
+def gen_seq_wild(rng, base):
+    nsteps = rng.choice([2, 2, 3, 4])
+    c = gen_main_wild(rng, base, nargv=nsteps)
+    steps = [dict(kind='run', argv=a) for a in c.pop('argvs')]
+    for st in steps:
+        if rng.random() < 0.3:                             # make sure commands are named
+            st['argv'] = [rng.choice(CMD_NAMES)] + st['argv']
+        if rng.random() < 0.12:
+            st.clear()
+            st.update(kind='build', name=rng.choice(CMD_NAMES + ['nocmd']))
+    del c['argv']
+    c.update(part='seq', kind='seq-wild', steps=steps)
+    return c
+
+
+def run_seq_steps(c, steps):
+    """the steps on ONE DoitMain -> (list of (obs, rec), config as plain data before, after each step)"""
+    from doit import doit_cmd
+    from doit.globals import Globals
+    from doit.action import CmdAction
+    from doit.cmd_base import get_loader
+    from doit.cmdparse import CmdParseError
+    res, confs = [], []
+    saved = (Globals.dep_manager, CmdAction.STRING_FORMAT, doit_cmd._CMDLINE_VARS)
+    try:
+        rec = {}
+        with Environ(c['env']):
+            try:
+                main = build_main(c, rec)
+                confs.append(plain_config(main))
+            except Exception:  # noqa
+                return [([98], {})] * len(steps), []
+            for st in steps:
+                if st['kind'] == 'run':
+                    res.append(one_main_run(main, rec, st['argv']))
+                else:
+                    try:
+                        sub_cmds = main.get_cmds()
+                        if st['name'] not in sub_cmds:
+                            obs = [97]
+                        else:
+                            loader = get_loader(main.config, main.task_loader, sub_cmds)
+                            buf = io.StringIO()
+                            with contextlib.redirect_stdout(buf), contextlib.redirect_stderr(buf):
+                                cmd = sub_cmds.get_plugin(st['name'])(task_loader=loader, config=main.config, bin_name='doit', cmds=sub_cmds)
+                                obs = [0] + zdefaults(cmd.cmdparser)
+                    except CmdParseError:
+                        obs = [3]
+                    except Exception:  # noqa
+                        obs = [98]
+                    res.append((obs, {}))
+                try:
+                    confs.append(plain_config(main))
+                except Exception:  # noqa
+                    confs.append(None)
+    finally:
+        Globals.dep_manager, CmdAction.STRING_FORMAT, doit_cmd._CMDLINE_VARS = saved
+    return res, confs
+
+
+def seq_model(c):
+    steps = clist(('SRun %s' % clist(cstr(a) for a in st['argv'])) if st['kind'] == 'run' else ('SBuild %s' % cstr(st['name'])) for st in c['steps'])
+    return 'seq_scenario %s %s %s %s' % (ccli(c), clist('(%d%%N, %s)' % (k, cstr(v)) for k, v in c['env']), ckv(c['dodo']), steps)
+
+
+def step_text(st):
+    return ('doit ' + ' '.join(st['argv'])) if st['kind'] == 'run' else ('build command %s' % st['name'])
+
+
+def judge_seq(c, res, confs, alone, out):
+    slim = {k: c[k] for k in ('part', 'kind', 'lspec', 'cmds', 'config', 'env', 'dodo', 'steps')}
+    text = '; '.join(step_text(st) for st in c['steps'])
+    # purity 1: the config object is what it was before the sequence
+    for i in range(1, len(confs)):
+        if confs[i] != confs[0]:
+            changed = sorted(sec for sec in set(confs[0]) | set(confs[i] or {}) if (confs[i] or {}).get(sec) != confs[0].get(sec))
+            out.violations.append(dict(
+                what='the config object of DoitMain was modified by step %d (%s) of [%s]: section(s) %s: before %r, after %r' % (
+                    i, step_text(c['steps'][i - 1]), text, changed, {s_: confs[0].get(s_) for s_ in changed},
+                    {s_: (confs[i] or {}).get(s_) for s_ in changed}),
+                shape='config-mutated', case=slim))
+            break
+    # purity 2: a step gives what it gives as the first step on a fresh DoitMain
+    for i, (a, (obs, _)) in enumerate(zip(alone, res)):
+        if a is not None and a != obs:
+            out.violations.append(dict(
+                what='step %d (%s) of [%s] on one DoitMain gives a different result than the same step alone on a fresh DoitMain '
+                     '(encoded: in the sequence %s, alone %s)' % (i + 1, step_text(c['steps'][i]), text, obs, a),
+                shape='seq-step-not-independent', case=slim))
+            break
+    # precedence on every run step, from the written assignment and the ORIGINAL configuration alone
+    if c['kind'].startswith('seq-wf'):
+        for i, (st, r) in enumerate(zip(c['steps'], res)):
+            if st['kind'] != 'run':
+                continue
+            n0 = len(out.violations)
+            judge_main(dict(c, **dict(st, kind='main-wf:' + st['mode'])), [r], out, slim=slim)
+            for v in out.violations[n0:]:
+                v['what'] = 'step %d of [%s] on one DoitMain: %s' % (i + 1, text, v['what'])
+                v['shape'] = 'seq:' + v['shape']
+            if len(out.violations) > n0:
+                break
+
+
+def part_seq(ctx, out):
+    import random
+    rng = random.Random(ctx.rng.random())
+    base = base_spec()
+    cases = []
+    for what, n in (('wf', ctx.n(140, 1800)), ('wild', ctx.n(70, 900))):
+        for _ in range(n):
+            c = gen_seq_case(rng, base) if what == 'wf' else gen_seq_wild(rng, base)
+            check_int_oracle(dict(env=c['env'], cfg=[kv for _, items in c['config'] for kv in items],
+                                  argv=[a for st in c['steps'] if st['kind'] == 'run' for a in st['argv']]), out)
+            try:
+                res, confs = run_seq_steps(c, c['steps'])
+                alone = [None] + [run_seq_steps(c, [st])[0][0][0] for st in c['steps'][1:]]
+            except Exception:  # noqa
+                res, confs, alone = [([98], {})] * len(c['steps']), [], []
+            judge_seq(c, res, confs, alone, out)
+            out.count('scenario:' + c['kind'])
+            out.count('seq-steps:%d' % len(c['steps']))
+            for st in c['steps']:
+                out.count('seq-step:' + st['kind'])
+            names = [st.get('exec') or st.get('name') for st in c['steps']]
+            if c['kind'].startswith('seq-wf'):
+                out.count('seq-commands:%s' % ('one' if len(set(names)) == 1 else 'several'))
+            for (obs, _) in res:
+                out.count('seq-outcome:%s:%d' % (c['kind'].split(':')[0], obs[0]))
+            out.nontrivial.add((c['kind'], repr([(st['kind'], st.get('name'), tuple(st.get('argv', ()))) for st in c['steps']]),
+                                tuple(c['env']), repr(c['config']), repr(c['dodo'])))
+            expected = []
+            for obs, _ in res:
+                expected += [-1] + obs
+            desc = {k: c[k] for k in ('part', 'kind', 'lspec', 'cmds', 'config', 'env', 'dodo', 'steps')}
+            cases.append(dict(model=seq_model(c), expected=expected, desc=desc))
+            if c['kind'].startswith('seq-wf') and len(set(names)) > 1 and sum(1 for s_ in out.samples if 'sequence' in s_) < 2:
+                out.samples.append(dict(sequence=[step_text(st) for st in c['steps']], config=c['config'], env=c['env'],
+                                        shared_options=[o['n'] for o in c['lspec']] + sorted(set(
+                                            o['n'] for cm in c['cmds'] for o in cm['spec'] if sum(o in c2['spec'] for c2 in c['cmds']) > 1)),
+                                        observed=[obs for obs, _ in res]))
     return cases
 
 
@@ -1716,12 +1957,16 @@ def run(ctx):
                 'with and without =VALUE, valued options, flags, inverse flags; every kind on every seed); '
                 'Task.init_options; DoitMain.run with recording loader/commands (options of the loader before the sub-command name, config '
                 'sections, environment, DOIT_CONFIG; well-formed, one injected error, wild); Command.parse_execute with opt_vals twice on one '
-                'object; process_args; the real CLI in a sub-process (which dodo file is loaded).  non-trivial = distinct (kind, argv, option '
+                'object; process_args; the real CLI in a sub-process (which dodo file is loaded); sequences of 2-4 steps (runs of different / '
+                'the same command, commands only built) on ONE DoitMain whose commands share options that GLOBAL and the sections of the '
+                'commands set differently (every step vs. the model on the original configuration, vs. the same step alone on a fresh '
+                'DoitMain, config object vs. a deep copy).  non-trivial = distinct (kind, argv, option '
                 'shapes, env, config) with a non-empty argv/env/config')
     cases = part_scenarios(ctx, out) + part_getopt(ctx, out) + part_abbrev(ctx, out) + part_task_options(ctx, out)
     cases += part_main(ctx, out) + part_pe(ctx, out) + part_vars(ctx, out)
     part_exit_code(ctx, out)
     ncli = part_cli(ctx, out)
+    cases += part_seq(ctx, out)                      # last: draws from its own generator, the cases of the other parts stay as they were
     out.evaluations = len(cases) + out.extra.get('exit_code_runs_exercised_only', 0) + ncli
     bad = common.compare_with_model(ctx, PRE, cases)
     out.traces_validated = len(cases)
@@ -1755,6 +2000,22 @@ def replay(ctx, payload):
             print('run %d: doit %s -> observed %s' % (i + 1, ' '.join(c['argv']), obs))
             print('   command=%s positional=%s\n   params at execute/setup=%s\n   params after DOIT_CONFIG=%s' % (
                 rec.get('cmd'), rec.get('pos'), rec.get('setup'), rec.get('final')))
+        return 0
+    if isinstance(c, dict) and c.get('part') == 'seq':
+        c = dict(c, base=base_spec(), env=tup(c.get('env', [])), dodo=tup(c.get('dodo', [])),
+                 config=[(sec, tup(items)) for sec, items in c.get('config', [])])
+        res, confs = run_seq_steps(c, c['steps'])
+        print('config object before: %s' % (confs[0] if confs else None))
+        for i, (st, (obs, rec)) in enumerate(zip(c['steps'], res)):
+            a_obs, a_rec = run_seq_steps(c, [st])[0][0]
+            print('step %d: %s -> observed %s' % (i + 1, step_text(st), obs))
+            if st['kind'] == 'run':
+                print('   command=%s positional=%s\n   params at execute/setup=%s\n   params after DOIT_CONFIG=%s' % (
+                    rec.get('cmd'), rec.get('pos'), rec.get('setup'), rec.get('final')))
+            if a_obs != obs:
+                print('   DIFFERENT from the same step alone on a fresh DoitMain: %s\n   params at execute/setup=%s' % (a_obs, a_rec.get('setup')))
+            if i + 1 < len(confs):
+                print('   config object after the step: %s%s' % (confs[i + 1], '' if confs[i + 1] == confs[0] else '   <-- MODIFIED'))
         return 0
     if isinstance(c, dict) and c.get('part') == 'pe':
         c = dict(c, cfg=tup(c.get('cfg', [])), env=tup(c.get('env', [])), ov=tup(c.get('ov', [])))
